@@ -383,6 +383,41 @@ case("morx without feat: dlig cannot be mapped", base(morx=DLIG), T(1), plain(1)
 case("morx wins over GSUB", base(morx=morx({"kind": "noncontextual", "map": {1: 5}}), gsub=gsub([single(1, 9)])), T(1), plain(5))
 
 # ------------------------------------------------------------------------------------------------
+# more formats of shared pieces
+# cross-stream kern: all glyphs are chained cursively; the value becomes the y offset of the second glyph and
+# is inherited by everything after it
+case("kern cross-stream", base(kern=[{"cross": True, "pairs": [(1, 2, 30)]}]), T(1, 2, 3),
+     [(1, 0, A(1), 0, 0, 0), (2, 1, A(2), 0, 0, 30), (3, 2, A(3), 0, 0, 30)])
+case("anchor formats 2 and 3 read like format 1", base(gdef=GDEF, gpos=gpos([{"type": 4, "subtables": [
+    {"mark_coverage": [5], "base_coverage": [1], "marks": [(0, {"x": 20, "y": 10, "format": 3})],
+     "bases": [[{"x": 300, "y": 400, "format": 2, "point": 3}]]}]}], tag="mark")), T(1, 5),
+    [(1, 0, A(1), 0, 0, 0), (5, 1, 0, 0, 280 - A(1), 390)])
+for cf in (1, 2):
+    case("classdef forced format %d" % cf, base(gsub=gsub([
+        {"type": 5, "subtables": [{"format": 2, "coverage": [1, 2], "classdef": {"format": cf, "map": {1: 1, 2: 2, 7: 2}},
+                                   "classsets": [None, [{"input": [2, 2], "lookups": [(2, 1)]}]]}]},
+        single(7, 9)])), T(1, 2, 7, 1, 3, 7), plain(1, 2, 9, 1, 3, 7))
+case("classdef verbatim ranges", base(gsub=gsub([
+    {"type": 5, "subtables": [{"format": 2, "coverage": [1], "classdef": {"format": 2, "ranges": [(1, 1, 1), (2, 4, 2)]},
+                               "classsets": [None, [{"input": [2], "lookups": [(1, 1)]}]]}]},
+    {"type": 1, "subtables": [{"coverage": [2, 3, 4], "delta": 5}]}])), T(1, 4, 1, 5), plain(1, 9, 1, 5))
+case("GPOS2.1 both value records (second glyph is consumed)", base(gpos=gpos([{"type": 2, "subtables": [
+    {"format": 1, "coverage": [1, 2], "pairsets": [[(2, {"xAdvance": -10}, {"xAdvance": 4, "yPlacement": 3})],
+                                                    [(3, {"xAdvance": 100}, None)]]}]}])), T(1, 2, 3),
+    # (1,2) applies; because value format 2 is not empty the next pair starts at 3, so (2,3) is not tried
+    [(1, 0, A(1) - 10, 0, 0, 0), (2, 1, A(2) + 4, 0, 0, 3), (3, 2, A(3), 0, 0, 0)])
+case("GPOS7.2 context classes", base(gpos=gpos([
+    {"type": 7, "subtables": [{"format": 2, "coverage": [1], "classdef": {1: 1, 2: 2},
+                               "classsets": [None, [{"input": [2], "lookups": [(1, 1)]}]]}]}, ADJ])), T(1, 2),
+    [(1, 0, A(1)), (2, 1, A(2) + 11)])
+case("GPOS3 cursive, RightToLeft lookup flag (parent/child swapped)", base(gpos=gpos([{"type": 3, "flag": 1, "subtables": [
+    {"coverage": [1, 2], "entry_exit": [(None, (400, 100)), ((50, 30), None)]}]}], tag="curs")), T(1, 2),
+    # with the flag the first glyph is the child: y = entry.y - exit.y = -70 on glyph 1
+    [(1, 0, 400, 0, 0, -70), (2, 1, A(2) - 50, 0, -50, 0)])
+# right-to-left run: output is in visual order (reversed), clusters descending
+case("direction rtl reverses output", base(), T(1, 2, 3), [(3, 2, A(3)), (2, 1, A(2)), (1, 0, A(1))], direction="r")
+
+# ------------------------------------------------------------------------------------------------
 # escape hatches / liberal serialisation
 case("raw_bytes subtable + null subtable offset",
      base(gsub=gsub([{"type": 1, "subtables": [None, {"raw_bytes": "0001" "0006" "0002" "0001" "0001" "0001"}]}])),
@@ -394,6 +429,341 @@ case("num_glyphs = 0 is rejected by the crate", {"num_glyphs": 0}, [], None, exp
 
 
 # ------------------------------------------------------------------------------------------------
+# random recipes (smoke): type-directed, every table kind; `wild` adds malformed pieces (unsorted raw coverages,
+# out-of-range lookup / class / entry indices, null offsets).  Usable by other streams:
+#     import fontbuild_test; r = fontbuild_test.random_recipe(random.Random(seed), wild=False)
+
+def _r_cov(rng, ng, wild, lo=1, kmax=4):
+    gl = rng.sample(range(lo, ng), rng.randint(1, min(kmax, ng - lo)))
+    form = rng.randint(0, 3)
+    if wild and rng.random() < 0.3:
+        return {"glyphs": gl + ([gl[0]] if rng.random() < 0.3 else []), "format": rng.choice([1, 2]), "raw": True}
+    if form == 0:
+        return gl
+    if form == 1:
+        return {"glyphs": gl, "format": 2}
+    if form == 2:
+        a = rng.randint(lo, ng - 1)
+        b = min(ng - 1, a + rng.randint(0, 3))
+        return {"ranges": [(a, b)]}
+    return sorted(gl)
+
+
+def _cov_len(c):
+    if isinstance(c, list):
+        return len(c)
+    if "ranges" in c:
+        return sum(max(0, r[1] - r[0] + 1) for r in c["ranges"])
+    return len(c["glyphs"])
+
+
+def _r_classdef(rng, ng, nclass):
+    return {g: rng.randint(0, nclass - 1) for g in rng.sample(range(1, ng), rng.randint(1, ng - 1))}
+
+
+def _r_seqlookups(rng, nlook, seqlen, wild):
+    hi = nlook + (2 if wild else 0)
+    return [(rng.randint(0, seqlen - 1 + (1 if wild else 0)), rng.randint(0, max(0, hi - 1))) for _ in range(rng.randint(0, 2))]
+
+
+def _r_context(rng, ng, nlook, chain, wild):
+    fmt = rng.randint(1, 3)
+    g = lambda: rng.randint(1, ng - 1)
+    if fmt == 3:
+        n = rng.randint(1, 3)
+        st = {"format": 3, "coverages": [_r_cov(rng, ng, wild) for _ in range(n)], "lookups": _r_seqlookups(rng, nlook, n, wild)}
+        if chain:
+            st["backtrack"] = [_r_cov(rng, ng, wild) for _ in range(rng.randint(0, 2))]
+            st["lookahead"] = [_r_cov(rng, ng, wild) for _ in range(rng.randint(0, 2))]
+        return st
+
+    def rule(val):
+        n = rng.randint(1, 3)
+        r = {"input": [val() for _ in range(n - 1)], "lookups": _r_seqlookups(rng, nlook, n, wild)}
+        if chain:
+            r["backtrack"] = [val() for _ in range(rng.randint(0, 2))]
+            r["lookahead"] = [val() for _ in range(rng.randint(0, 2))]
+        return r
+    cov = _r_cov(rng, ng, wild)
+    if fmt == 1:
+        return {"format": 1, "coverage": cov,
+                "rulesets": [None if rng.random() < 0.1 else [rule(g) for _ in range(rng.randint(1, 2))] for _ in range(_cov_len(cov))]}
+    nc = rng.randint(2, 4)
+    c = lambda: rng.randint(0, nc - 1 + (1 if wild else 0))
+    st = {"format": 2, "coverage": cov,
+          "classsets": [None if rng.random() < 0.3 else [rule(c) for _ in range(rng.randint(1, 2))] for _ in range(nc)]}
+    if chain:
+        st["backtrack_classdef"] = _r_classdef(rng, ng, nc) if rng.random() < 0.8 else None
+        st["input_classdef"] = _r_classdef(rng, ng, nc)
+        st["lookahead_classdef"] = _r_classdef(rng, ng, nc) if rng.random() < 0.8 else None
+    else:
+        st["classdef"] = _r_classdef(rng, ng, nc)
+    return st
+
+
+def _r_gsub_subtable(rng, typ, ng, nlook, wild):
+    g = lambda: rng.randint(0 if wild else 1, ng - 1 + (3 if wild else 0))
+    cov = _r_cov(rng, ng, wild)
+    n = _cov_len(cov)
+    if typ == 1:
+        if rng.random() < 0.5:
+            return {"format": 1, "coverage": cov, "delta": rng.randint(-3, 3)}
+        return {"format": 2, "coverage": cov, "subst": [g() for _ in range(n)]}
+    if typ == 2:
+        return {"coverage": cov, "sequences": [[g() for _ in range(rng.randint(0, 3))] for _ in range(n)]}
+    if typ == 3:
+        return {"coverage": cov, "alternates": [[g() for _ in range(rng.randint(0 if wild else 1, 3))] for _ in range(n)]}
+    if typ == 4:
+        return {"coverage": cov, "ligsets": [[{"components": [g() for _ in range(rng.randint(0, 2))], "glyph": g()}
+                                              for _ in range(rng.randint(1, 2))] for _ in range(n)]}
+    if typ == 5:
+        return _r_context(rng, ng, nlook, False, wild)
+    if typ == 6:
+        return _r_context(rng, ng, nlook, True, wild)
+    if typ == 7:
+        et = rng.choice([1, 2, 3, 4, 5, 6, 8])
+        return {"ext_type": et, "extension": _r_gsub_subtable(rng, et, ng, nlook, wild)}
+    return {"coverage": cov, "backtrack": [_r_cov(rng, ng, wild) for _ in range(rng.randint(0, 2))],
+            "lookahead": [_r_cov(rng, ng, wild) for _ in range(rng.randint(0, 2))], "subst": [g() for _ in range(n)]}
+
+
+def _r_vr(rng):
+    if rng.random() < 0.2:
+        return None
+    return {k: rng.randint(-60, 60) for k in rng.sample(["xPlacement", "yPlacement", "xAdvance", "yAdvance"], rng.randint(1, 3))}
+
+
+def _r_anchor(rng, none=0.2):
+    return None if rng.random() < none else (rng.randint(-100, 600), rng.randint(-100, 600))
+
+
+def _r_gpos_subtable(rng, typ, ng, nlook, wild):
+    cov = _r_cov(rng, ng, wild)
+    n = _cov_len(cov)
+    if typ == 1:
+        if rng.random() < 0.5:
+            return {"format": 1, "coverage": cov, "value": _r_vr(rng)}
+        return {"format": 2, "coverage": cov, "values": [_r_vr(rng) for _ in range(n)]}
+    if typ == 2:
+        if rng.random() < 0.5:
+            return {"format": 1, "coverage": cov, "pairsets": [
+                [(rng.randint(1, ng - 1), _r_vr(rng), _r_vr(rng)) for _ in range(rng.randint(0, 3))] for _ in range(n)]}
+        c1, c2 = rng.randint(1, 3), rng.randint(1, 3)
+        return {"format": 2, "coverage": cov, "classdef1": _r_classdef(rng, ng, c1 + (1 if wild else 0)),
+                "classdef2": _r_classdef(rng, ng, c2 + (1 if wild else 0)),
+                "matrix": [[(_r_vr(rng), _r_vr(rng)) for _ in range(c2)] for _ in range(c1)]}
+    if typ == 3:
+        return {"coverage": cov, "entry_exit": [(_r_anchor(rng, 0.3), _r_anchor(rng, 0.3)) for _ in range(n)]}
+    if typ in (4, 5, 6):
+        k = rng.randint(1, 3)
+        cov2 = _r_cov(rng, ng, wild)
+        marks = [(rng.randint(0, k - 1 + (1 if wild else 0)), _r_anchor(rng, 0.0)) for _ in range(n)]
+        row = lambda: [_r_anchor(rng) for _ in range(k)]
+        if typ == 4:
+            return {"mark_coverage": cov, "base_coverage": cov2, "class_count": k, "marks": marks,
+                    "bases": [row() for _ in range(_cov_len(cov2))]}
+        if typ == 5:
+            return {"mark_coverage": cov, "lig_coverage": cov2, "class_count": k, "marks": marks,
+                    "ligs": [[row() for _ in range(rng.randint(1, 3))] for _ in range(_cov_len(cov2))]}
+        return {"mark1_coverage": cov, "mark2_coverage": cov2, "class_count": k, "marks": marks,
+                "mark2": [row() for _ in range(_cov_len(cov2))]}
+    if typ == 7:
+        return _r_context(rng, ng, nlook, False, wild)
+    if typ == 8:
+        return _r_context(rng, ng, nlook, True, wild)
+    et = rng.randint(1, 8)
+    return {"ext_type": et, "extension": _r_gpos_subtable(rng, et, ng, nlook, wild)}
+
+
+def _r_layout(rng, ng, ntypes, subfn, tags, wild, nsets):
+    nlook = rng.randint(1, 5)
+    lookups = []
+    for _ in range(nlook):
+        typ = rng.randint(1, ntypes)
+        flag = rng.choice([0, 0, 0, 1, 2, 4, 8, 0x100, 0x200, 0xE])
+        l = {"type": typ, "flag": flag,
+             "subtables": [None if wild and rng.random() < 0.05 else subfn(rng, typ, ng, nlook, wild)
+                           for _ in range(rng.randint(1, 2))]}
+        if nsets and rng.random() < 0.2:
+            l["mark_set"] = rng.randint(0, nsets - 1 + (1 if wild else 0))
+        lookups.append(l)
+    feats = [{"tag": rng.choice(tags), "lookups": sorted(rng.sample(range(nlook), rng.randint(1, nlook)))}
+             for _ in range(rng.randint(1, 3))]
+    t = {"features": feats, "lookups": lookups}
+    if rng.random() < 0.3:
+        nf = len(feats)
+        t["scripts"] = [{"tag": "DFLT", "default": {"required": rng.choice([None, 0]), "features": list(range(nf))},
+                         "langs": [{"tag": "ENG ", "required": None, "features": [0]}]},
+                        {"tag": "latn", "default": None, "langs": []}]
+    return t
+
+
+def _r_morx_subtable(rng, ng, wild):
+    kind = rng.choice(["rearrangement", "contextual", "ligature", "noncontextual", "insertion"])
+    s = {"kind": kind, "feature_flags": rng.choice([1, 1, 1, 3]), "descending": rng.random() < 0.2,
+         "logical": rng.random() < 0.2}
+    g = lambda: rng.randint(1, ng - 1)
+    if kind == "noncontextual":
+        s["map"] = {g(): g() for _ in range(rng.randint(0, 4))}
+        s["format"] = rng.choice([None, 0, 2, 4, 6, 8, 10])
+        return s
+    ncls = rng.randint(4, 7)
+    nst = rng.randint(2, 4)
+    nent = rng.randint(1, 5)
+    s["classes"] = {g(): rng.randint(4, ncls - 1 + (1 if wild else 0)) for _ in range(rng.randint(0, 5))} if ncls > 4 else {}
+    s["nclasses"] = ncls
+    s["class_format"] = rng.choice([None, 0, 2, 4, 6, 8, 10])
+    s["states"] = [[rng.randint(0, nent - 1 + (1 if wild else 0)) for _ in range(ncls)] for _ in range(nst)]
+    ents = []
+    for _ in range(nent):
+        e = {"new_state": rng.randint(0, nst - 1 + (1 if wild else 0))}
+        if kind == "rearrangement":
+            e["flags"] = rng.choice([0, 0x8000, 0x2000, 0x4000]) | rng.randint(0, 15)
+        elif kind == "contextual":
+            e["flags"] = rng.choice([0, 0x8000, 0x4000])
+            e["mark_index"] = rng.choice([0xFFFF, 0, 1, 2 if wild else 1])
+            e["current_index"] = rng.choice([0xFFFF, 0, 1])
+        elif kind == "ligature":
+            e["flags"] = rng.choice([0, 0x8000, 0xA000, 0x2000, 0x4000])
+            e["action_index"] = rng.randint(0, 2 + (2 if wild else 0))
+        else:
+            e["flags"] = rng.choice([0, 0x8000, 0x4000]) | (rng.randint(0, 2) << 5) | rng.randint(0, 2) | \
+                rng.choice([0, 0x0800, 0x0400])
+            e["current_insert_index"] = rng.choice([0xFFFF, 0, 1])
+            e["marked_insert_index"] = rng.choice([0xFFFF, 0, 1])
+        ents.append(e)
+    s["entries"] = ents
+    if kind == "contextual":
+        s["substitutions"] = [{g(): g() for _ in range(rng.randint(1, 3))} for _ in range(2)]
+    elif kind == "ligature":
+        s["lig_actions"] = [rng.choice([0, 0x80000000, 0xC0000000, 0x40000000]) | (rng.randint(-3, 3) & 0x3FFFFFFF) for _ in range(3)]
+        s["components"] = [rng.randint(0, 2) for _ in range(ng + 3)]
+        s["ligatures"] = [g() for _ in range(4)]
+    elif kind == "insertion":
+        s["insert_glyphs"] = [g() for _ in range(4)]
+    return s
+
+
+def random_recipe(rng, wild=False):
+    ng = rng.randint(6, 14)
+    r = {"num_glyphs": ng, "cmap": "pua", "advances": [A(g) for g in range(ng)]}
+    nsets = 0
+    if rng.random() < 0.7:
+        gd = {"classes": {g: rng.randint(1, 4) for g in rng.sample(range(1, ng), rng.randint(1, ng - 1))}}
+        if rng.random() < 0.5:
+            gd["mark_attach"] = {g: rng.randint(1, 3) for g in range(1, ng) if gd["classes"].get(g) == 3}
+        if rng.random() < 0.5:
+            nsets = rng.randint(1, 2)
+            gd["mark_sets"] = [_r_cov(rng, ng, wild) for _ in range(nsets)]
+        r["gdef"] = gd
+    if rng.random() < 0.8:
+        r["gsub"] = _r_layout(rng, ng, 8, _r_gsub_subtable, ["liga", "ccmp", "calt", "rlig", "smcp"], wild, nsets)
+    if rng.random() < 0.7:
+        r["gpos"] = _r_layout(rng, ng, 9, _r_gpos_subtable, ["kern", "mark", "mkmk", "curs", "dist"], wild, nsets)
+    if rng.random() < 0.3:
+        r["kern"] = [{"horizontal": rng.random() < 0.8, "cross": rng.random() < 0.2,
+                      "pairs": [(rng.randint(1, ng - 1), rng.randint(1, ng - 1), rng.randint(-80, 80)) for _ in range(rng.randint(0, 6))]}
+                     for _ in range(rng.randint(1, 2))]
+    if rng.random() < 0.3:
+        r["morx"] = {"chains": [{"default_flags": 1, "features": [],
+                                 "subtables": [_r_morx_subtable(rng, ng, wild) for _ in range(rng.randint(1, 3))]}
+                                for _ in range(rng.randint(1, 2))]}
+    if rng.random() < 0.2:
+        r["vadvances"] = [700 + g for g in range(ng)]
+        if rng.random() < 0.5:
+            r["vorg"] = {"default": 800, "glyphs": {rng.randint(1, ng - 1): 850}}
+    return r
+
+
+def smoke(nfonts, seed=1):
+    """builds random recipes and shapes random texts: the builder must not raise, the crate must accept every font
+    and answer `ok` (a crate panic is printed as a NOTE with a replay, it is not a builder failure)."""
+    import json
+    import random
+    rng = random.Random(seed)
+    lines, meta = [], []
+    fails = 0
+    for i in range(nfonts):
+        wild = i % 3 == 2
+        rec = random_recipe(rng, wild)
+        try:
+            hexf = fontbuild.hexfont(rec)
+            if fontbuild.hexfont(json.loads(json.dumps(rec))) != hexf:
+                raise ValueError("JSON round trip changes the font")
+        except Exception as e:
+            fails += 1
+            print("FAIL smoke: builder raised %r on %s" % (e, json.dumps(rec)))
+            continue
+        lines.append("font S %s" % hexf)
+        meta.append(("font", rec, None))
+        for _ in range(4):
+            ng = rec["num_glyphs"]
+            text = [rng.randint(1, ng - 1) for _ in range(rng.randint(0, 8))]
+            d = rng.choice("lllrt")
+            lines.append("shape S %s DFLT - 0 0 - - - %s" % (d, ",".join("%x:%d" % (0xE000 + g - 1, j) for j, g in enumerate(text)) or "-"))
+            meta.append(("shape", rec, (d, text)))
+    p = subprocess.run([SHIM], input="\n".join(lines) + "\n", capture_output=True, text=True)
+    out = p.stdout.split("\n")
+    panics = 0
+    shaped = changed = 0
+    for (kind, rec, arg), reply in zip(meta, out):
+        if kind == "font":
+            if reply != "ok":
+                fails += 1
+                print("FAIL smoke: font reply %r for %s" % (reply, json.dumps(rec)))
+        elif reply.startswith("panic"):
+            panics += 1
+            if panics <= 5:
+                print("NOTE crate panic: %s | dir=%s text=%s recipe=%s" % (reply, arg[0], arg[1], json.dumps(rec)))
+        elif not reply.startswith("ok "):
+            fails += 1
+            print("FAIL smoke: shape reply %r" % reply)
+        else:
+            shaped += 1
+            gids = [int(t.split(":")[0]) for t in reply.split(" ")[2:]]
+            if arg[0] == "r":
+                gids = gids[::-1]
+            if gids != arg[1]:
+                changed += 1
+    if p.returncode != 0 or len(out) - 1 != len(lines):
+        fails += 1
+        print("FAIL smoke: rbshim exit %d, %d replies for %d requests" % (p.returncode, len(out) - 1, len(lines)))
+    print("%s smoke: %d random fonts (1/3 malformed), %d shapes ok (%d with substitutions), %d crate panics"
+          % ("FAIL" if fails else "PASS", nfonts, shaped, changed, panics))
+    return fails
+
+
+def unit():
+    """checks that need no shaping"""
+    fails = 0
+
+    def check(name, ok):
+        nonlocal fails
+        print("%s %s" % ("PASS" if ok else "FAIL", name))
+        fails += 0 if ok else 1
+    f = fontbuild
+    check("coverage_order / parallel (cooked)", f.coverage_order([5, 3, 5]) == [3, 5] and f.parallel([5, 3, 5], [10, 11, 12]) == [11, 10])
+    check("coverage_order / parallel (ranges)", f.coverage_order({"ranges": [(4, 6), (1, 2)]}) == [1, 2, 4, 5, 6]
+          and f.parallel({"ranges": [(4, 6), (1, 2)]}, list("abcde")) == list("deabc"))
+    check("coverage_order / parallel (raw)", f.coverage_order({"glyphs": [3, 1], "raw": True}) == [3, 1]
+          and f.parallel({"glyphs": [3, 1], "raw": True}, [7, 8]) == [7, 8])
+    big = {"num_glyphs": 4, "gsub": {"features": [], "lookups": [
+        {"type": 2, "subtables": [{"coverage": [1], "sequences": [[2] * 40000]}, {"coverage": [1], "sequences": [[2] * 40000]}]}]}}
+    try:
+        f.build(big)
+        check("Offset16 overflow raises FontBuildError", False)
+    except f.FontBuildError:
+        check("Offset16 overflow raises FontBuildError", True)
+    data = f.build(base(post=True, gdef=GDEF))
+    ntab = int.from_bytes(data[4:6], "big")
+    tags = [data[12 + 16 * i:16 + 16 * i] for i in range(ntab)]
+    total = sum(int.from_bytes(data[i:i + 4], "big") for i in range(0, len(data), 4)) & 0xFFFFFFFF
+    check("table directory sorted, 4-byte aligned, checkSumAdjustment makes the file sum 0xB1B0AFBA",
+          tags == sorted(tags) and len(data) % 4 == 0 and total == 0xB1B0AFBA)
+    check("deterministic", f.build(base(gdef=GDEF)) == f.build(base(gdef=GDEF)))
+    check("hexfont", f.hexfont(base()) == f.build(base()).hex())
+    return fails
+
 
 def ensure_shim():
     if os.path.exists(SHIM):
@@ -459,6 +829,9 @@ def main(argv):
     if p.returncode != 0:
         print("FAIL rbshim exited with %d: %s" % (p.returncode, p.stderr[-400:]))
         fails += 1
+    if not only:
+        fails += unit()
+        fails += smoke(300)
     print("%d cases, %d failed" % (len(index), fails))
     return 1 if fails else 0
 
